@@ -183,8 +183,10 @@ def check_block(block_bytes, digest_bstr_content, alg, kid, pub):
     if arr.mt != 4 or len(arr.items) != 4:
         return [("sign1-shape", "COSE_Sign1 is not an array of 4")]
     prot, unprot, payload, sig = arr.items
-    if prot.mt != 2 or unprot.mt != 5 or unprot.items or payload.mt != 7 or payload.val is not None or sig.mt != 2:
-        out.append(("sign1-shape", f"COSE_Sign1 is not [bstr, {{}}, nil, bstr]: {arr.raw[:24].hex()}"))
+    # COSE_Sign1 = [protected bstr, unprotected map, payload, signature bstr]; SUIT authentication blocks carry a nil
+    # (detached) payload. Extra unprotected parameters are not forbidden by the property: tolerated, not demanded.
+    if prot.mt != 2 or unprot.mt != 5 or payload.mt != 7 or payload.val is not None or sig.mt != 2:
+        out.append(("sign1-shape", f"COSE_Sign1 is not [bstr, map, nil, bstr]: {arr.raw[:24].hex()}"))
         if prot.mt != 2 or sig.mt != 2:
             return out
     try:
@@ -193,8 +195,10 @@ def check_block(block_bytes, digest_bstr_content, alg, kid, pub):
         return out + [("sign1-protected", f"protected header is not CBOR: {e}")]
     want = {1: ALGS[alg][0], 4: mcbor.enc(kid)}
     got = ph.py() if ph.mt == 5 else None
-    if got != want or not ph.all_definite_shortest():
-        out.append(("sign1-protected", f"protected header {prot.val.hex()} != {{1: {want[1]}, 4: h'{want[4].hex()}'}}"))
+    # the protected header must carry the algorithm and the bstr-wrapped key id (any order, further parameters tolerated)
+    if not isinstance(got, dict) or got.get(1) != want[1] or got.get(4) != want[4]:
+        out.append(("sign1-protected", f"protected header {prot.val.hex()} does not carry {{1: {want[1]}, 4: "
+                    f"h'{want[4].hex()}'}}"))
     tbs = mcbor.enc(["Signature1", prot.val, b"", digest_bstr_content])
     if alg.startswith("es-") and len(sig.val) != 2 * ALGS[alg][2]:
         out.append(("ecdsa-signature-width", f"ECDSA signature has {len(sig.val)} bytes, expected {2 * ALGS[alg][2]}"))
